@@ -17,7 +17,8 @@ use biodivine_lib_param_bn::BooleanNetwork;
 use proptest::prelude::*;
 use serde::{Deserialize, Serialize};
 use serde_json::{json, Value};
-use std::collections::HashMap;
+use crate::bundled::BigSet;
+use std::collections::{BTreeMap, HashMap};
 use std::time::{Duration, Instant};
 
 // ---------------------------------------------------------------------------------------------
@@ -183,6 +184,9 @@ pub struct ScaleCase {
     pub formula: String,
     /// reference evaluator in `fast` mode (chaotic EF/EU, AG by duality)
     pub fast: bool,
+    /// context sets (wild-cards and domains) as unions of sub-spaces x parameter cubes
+    #[serde(default)]
+    pub context: BTreeMap<String, BigSet>,
 }
 
 impl ScaleCase {
@@ -190,7 +194,7 @@ impl ScaleCase {
         serde_json::to_value(self).unwrap()
     }
     pub fn key(&self) -> u64 {
-        hash_of(&(&self.aeon, &self.model, self.k, &self.formula))
+        hash_of(&(&self.aeon, &self.model, self.k, &self.formula, &self.context))
     }
     pub fn network(&self) -> Result<BooleanNetwork, &'static str> {
         match (&self.aeon, &self.model) {
@@ -237,13 +241,14 @@ pub fn check_scale(prefix: &str, case: &ScaleCase, ref_budget: Duration) -> Verd
         Ok(b) => b,
         Err(r) => return Verdict::Discard(r),
     };
-    let f = match refparse::parse(&case.formula, false) {
+    let f = match refparse::parse(&case.formula, true) {
         Ok(f) => f,
         Err(_) => return Verdict::Discard("unreadable-case"),
     };
-    if !f.is_closed() || f.has_wild_or_domain() || f.has_weak_until() {
+    if !f.is_closed() {
         return Verdict::Discard("outside-domain");
     }
+    let extended = f.has_wild_or_domain();
     let graph = match guard(|| get_extended_symbolic_graph(&bn, case.k)) {
         Ok(Ok(g)) => g,
         Ok(Err(_)) => return Verdict::Discard("constraints-unsatisfiable"),
@@ -252,7 +257,15 @@ pub fn check_scale(prefix: &str, case: &ScaleCase, ref_budget: Duration) -> Verd
     if graph.unit_colors().is_empty() {
         return Verdict::Discard("constraints-unsatisfiable");
     }
-    let labels = HashMap::new();
+    let labels: HashMap<String, GraphColoredVertices> = case
+        .context
+        .iter()
+        .map(|(l, set)| (l.clone(), crate::bundled::build_big_set(&graph, set)))
+        .collect();
+    let (wild, dom) = f.labels();
+    if wild.iter().chain(dom.iter()).any(|l| !labels.contains_key(l)) {
+        return Verdict::Discard("unreadable-case");
+    }
     let reference = {
         let r = RefSym::new(&bn, &graph, &labels, case.fast, Some(Instant::now() + ref_budget));
         // pre-flight: the tool computes the steady states at the start of every call and cannot be
@@ -285,32 +298,58 @@ pub fn check_scale(prefix: &str, case: &ScaleCase, ref_budget: Duration) -> Verd
             }
         };
     }
-    let dirty = entry!("model_check_formula_dirty", model_check_formula_dirty(text, &graph));
-    if dirty != reference {
-        return Verdict::Fail(sfail(
-            &format!("{prefix}:scale-mismatch:model_check_formula_dirty"),
-            format!("model_check_formula_dirty: {}", witness_of(&graph, &dirty, &reference)),
-            case,
-        ));
-    }
-    let tree = entry!("parse_and_minimize_hctl_formula", parse_and_minimize_hctl_formula(graph.symbolic_context(), text));
-    let by_tree = entry!("model_check_tree_dirty", model_check_tree_dirty(tree, &graph));
-    if by_tree != reference {
-        return Verdict::Fail(sfail(
-            &format!("{prefix}:scale-mismatch:model_check_tree_dirty"),
-            format!("model_check_tree_dirty: {}", witness_of(&graph, &by_tree, &reference)),
-            case,
-        ));
-    }
-    let clean = entry!("model_check_formula", model_check_formula(text, &graph));
+    let clean = if extended {
+        let dirty = entry!("model_check_extended_formula_dirty", model_check_extended_formula_dirty(text, &graph, &labels));
+        if dirty != reference {
+            return Verdict::Fail(sfail(
+                &format!("{prefix}:scale-mismatch:model_check_extended_formula_dirty"),
+                format!("model_check_extended_formula_dirty: {}", witness_of(&graph, &dirty, &reference)),
+                case,
+            ));
+        }
+        let batch = entry!(
+            "model_check_multiple_extended_formulae_dirty",
+            model_check_multiple_extended_formulae_dirty(vec![text], &graph, &labels)
+        );
+        if batch.len() != 1 || batch[0] != reference {
+            return Verdict::Fail(sfail(
+                &format!("{prefix}:scale-mismatch:model_check_multiple_extended_formulae_dirty"),
+                format!(
+                    "model_check_multiple_extended_formulae_dirty: {}",
+                    batch.first().map(|b| witness_of(&graph, b, &reference)).unwrap_or_else(|| "no result".into())
+                ),
+                case,
+            ));
+        }
+        entry!("model_check_extended_formula", model_check_extended_formula(text, &graph, &labels))
+    } else {
+        let dirty = entry!("model_check_formula_dirty", model_check_formula_dirty(text, &graph));
+        if dirty != reference {
+            return Verdict::Fail(sfail(
+                &format!("{prefix}:scale-mismatch:model_check_formula_dirty"),
+                format!("model_check_formula_dirty: {}", witness_of(&graph, &dirty, &reference)),
+                case,
+            ));
+        }
+        let tree = entry!("parse_and_minimize_hctl_formula", parse_and_minimize_hctl_formula(graph.symbolic_context(), text));
+        let by_tree = entry!("model_check_tree_dirty", model_check_tree_dirty(tree, &graph));
+        if by_tree != reference {
+            return Verdict::Fail(sfail(
+                &format!("{prefix}:scale-mismatch:model_check_tree_dirty"),
+                format!("model_check_tree_dirty: {}", witness_of(&graph, &by_tree, &reference)),
+                case,
+            ));
+        }
+        entry!("model_check_formula", model_check_formula(text, &graph))
+    };
     let canonical = graph.symbolic_context().as_canonical_context();
     let moved = canonical
         .transfer_from(reference.as_bdd(), graph.symbolic_context())
         .unwrap_or_else(|| harness_error("reference result not transferable to the canonical context"));
     if clean.as_bdd() != &moved {
         return Verdict::Fail(sfail(
-            &format!("{prefix}:scale-mismatch:model_check_formula"),
-            "model_check_formula: sanitised result differs from the reference result".to_string(),
+            &format!("{prefix}:scale-mismatch:sanitised"),
+            "model_check_(extended_)formula: sanitised result differs from the reference result".to_string(),
             case,
         ));
     }
@@ -336,31 +375,60 @@ pub fn check_scale(prefix: &str, case: &ScaleCase, ref_budget: Duration) -> Verd
         nontrivial,
         key: case.key(),
         classes,
-        sample: json!({"network": case.aeon.clone().or_else(|| case.model.clone()), "k": case.k, "formula": case.formula, "decided_by": "reference symbolic evaluator"}),
+        sample: json!({"network": case.aeon.clone().or_else(|| case.model.clone()), "k": case.k, "formula": case.formula, "context_labels": case.context.keys().collect::<Vec<_>>(), "decided_by": "reference symbolic evaluator"}),
     })
 }
 
 /// A closed plain formula for a mid-size network (quantifier nesting by size).
-pub fn mid_formula(raw: &RawF, bn: &BooleanNetwork, heavy: bool) -> F {
+/// A closed formula over the network's variables in the operator set of `cfg` (its quantifier depth
+/// is overridden by `depth`); `cheap`: the operators evaluated by classical iteration (EG, AF, AU,
+/// EW) are mapped to saturation-friendly ones.
+pub fn scale_formula(raw: &RawF, bn: &BooleanNetwork, cfg: FCfg, depth: usize, cheap: bool) -> F {
     let props: Vec<String> = bn.variables().map(|v| bn.get_variable_name(v).clone()).collect();
-    if heavy {
-        // ~60 parameter bits: quantifier-free, saturation-friendly operators only
-        return crate::bundled::bundled_formula(raw, bn, false);
-    }
-    let depth = if props.len() <= 8 { 2 } else { 1 };
+    let labels: Vec<String> = if cfg.wild || cfg.domains { gen::LABELS.iter().map(|s| s.to_string()).collect() } else { vec![] };
     let env = FEnv {
         props: &props,
-        labels: &[],
-        cfg: FCfg { max_quant_depth: depth, long_chains: false, ..FCfg::PLAIN },
+        labels: &labels,
+        cfg: FCfg { max_quant_depth: depth, patterns: cfg.patterns && depth > 0, long_chains: false, domains: cfg.domains && depth > 0, ..cfg },
         binders: &gen::BINDERS,
     };
-    gen::resolve_f(raw, &env)
+    let f = gen::resolve_f(raw, &env);
+    if cheap {
+        crate::bundled::cheap_operators(&f)
+    } else {
+        f
+    }
+}
+
+pub fn mid_formula(raw: &RawF, bn: &BooleanNetwork, heavy: bool, cfg: FCfg) -> F {
+    if heavy {
+        // ~60 parameter bits: quantifier-free, saturation-friendly operators only
+        return scale_formula(raw, bn, cfg, 0, true);
+    }
+    let depth = if bn.num_vars() <= 8 { 2 } else { 1 };
+    scale_formula(raw, bn, cfg, depth, false)
+}
+
+/// The context sets a formula refers to, taken from `sets` by label position.
+pub fn context_for(f: &F, sets: &[BigSet]) -> BTreeMap<String, BigSet> {
+    let (w, d) = f.labels();
+    w.into_iter()
+        .chain(d)
+        .map(|l| {
+            let i = gen::LABELS.iter().position(|x| *x == l).unwrap_or(0);
+            (l, sets.get(i).cloned().unwrap_or(BigSet { pieces: vec![], mode: 0 }))
+        })
+        .collect()
 }
 
 pub fn mid_case(net: &RawMid, raw_f: &RawF, extra_k: u8) -> Result<ScaleCase, &'static str> {
+    mid_case_with(net, raw_f, extra_k, FCfg::PLAIN, &[])
+}
+
+pub fn mid_case_with(net: &RawMid, raw_f: &RawF, extra_k: u8, cfg: FCfg, sets: &[BigSet]) -> Result<ScaleCase, &'static str> {
     let aeon = resolve_mid(net);
     let bn = BooleanNetwork::try_from(aeon.as_str()).map_err(|_| "aeon-not-parsed")?;
-    let f = mid_formula(raw_f, &bn, net.heavy);
+    let f = mid_formula(raw_f, &bn, net.heavy, cfg);
     Ok(ScaleCase {
         scale: true,
         aeon: Some(aeon),
@@ -368,6 +436,80 @@ pub fn mid_case(net: &RawMid, raw_f: &RawF, extra_k: u8) -> Result<ScaleCase, &'
         k: f.quant_depth() as u16 + u16::from(extra_k % 2),
         formula: f.canon(),
         fast: false,
+        context: context_for(&f, sets),
+    })
+}
+
+/// Strategy of the raw ingredients of a mid-size case (network, formula, spare sets, context sets).
+pub type RawMidCase = (RawMid, RawF, u8, Vec<BigSet>);
+pub fn raw_mid_case(pattern_weight: u32) -> BoxedStrategy<RawMidCase> {
+    (
+        raw_mid(),
+        gen::raw_f_weighted(4, 12, pattern_weight),
+        any::<u8>(),
+        prop::collection::vec(crate::bundled::big_set(), gen::LABELS.len()),
+    )
+        .boxed()
+}
+
+/// A property's own small case or a mid-size one (network, formula, spare sets, context sets) with
+/// the milliseconds granted to the reference evaluator.
+#[derive(Clone, Debug)]
+pub enum WithMid<R> {
+    Small(R),
+    Mid(RawMidCase, u64),
+}
+
+/// `small_weight` : 1 mixture of a property's own strategy and mid-size cases.
+pub fn with_mid<R: std::fmt::Debug + Clone + 'static>(
+    small: BoxedStrategy<R>,
+    small_weight: u32,
+    pattern_weight: u32,
+    ms: u64,
+) -> BoxedStrategy<WithMid<R>> {
+    prop_oneof![
+        small_weight => small.prop_map(WithMid::Small),
+        1 => (raw_mid_case(pattern_weight), Just(ms)).prop_map(|(c, ms)| WithMid::Mid(c, ms)),
+    ]
+    .boxed()
+}
+
+pub static MID_NANOS: std::sync::atomic::AtomicU64 = std::sync::atomic::AtomicU64::new(0);
+
+pub fn check_mid(prefix: &str, raw: &RawMidCase, ms: u64, cfg: FCfg) -> Verdict {
+    let t_all = Instant::now();
+    let v = check_mid_inner(prefix, raw, ms, cfg);
+    MID_NANOS.fetch_add(t_all.elapsed().as_nanos() as u64, std::sync::atomic::Ordering::Relaxed);
+    v
+}
+
+fn check_mid_inner(prefix: &str, raw: &RawMidCase, ms: u64, cfg: FCfg) -> Verdict {
+    // the heavily parametrised variant (tool calls of 5-10 s) is left to the thorough tier
+    let mut net = raw.0.clone();
+    net.heavy = net.heavy && ms >= 1000;
+    match mid_case_with(&net, &raw.1, raw.2, cfg, &raw.3) {
+        Err(r) => Verdict::Discard(r),
+        Ok(case) => {
+            let t = Instant::now();
+            let mut v = check_scale(prefix, &case, Duration::from_millis(ms));
+            if std::env::var("VERIF_TRACE_SLOW").is_ok() && t.elapsed().as_secs_f64() > 1.5 {
+                eprintln!("slow mid case {:.1}s {} :: {} :: {}", t.elapsed().as_secs_f64(), matches!(v, Verdict::Pass(_)), case.formula, case.aeon.clone().unwrap_or_default().replace('\n', " ; "));
+            }
+            if let Verdict::Pass(rep) = &mut v {
+                let s = t.elapsed().as_secs_f64();
+                rep.classes.push(format!("scale:seconds{}", if s < 0.1 { "<0.1" } else if s < 1.0 { "<1" } else if s < 3.0 { "<3" } else if s < 10.0 { "<10" } else { ">=10" }));
+            }
+            v
+        }
+    }
+}
+
+/// Replay of a saved scale case (None: the file holds another kind of case).
+pub fn replay_scale(prefix: &str, case: &Value) -> Option<Verdict> {
+    case.get("scale")?;
+    Some(match serde_json::from_value::<ScaleCase>(case.clone()) {
+        Ok(c) => check_scale(prefix, &c, Duration::from_secs(600)),
+        Err(_) => Verdict::Discard("unreadable-case"),
     })
 }
 
@@ -449,14 +591,33 @@ pub fn shrink_scale(prefix: &str, failure: Failure, budget: Duration) -> Failure
 // ---------------------------------------------------------------------------------------------
 // deterministic stage over the bundled models
 
-/// `per_model` formulae (derived from the seed) on each listed model, one thread per model; the
+/// `per_model` formulae (derived from the seed) on each listed model, all cases on 16 workers; the
 /// first failure is shrunk (formula only) and returned.
+#[allow(clippy::too_many_arguments)]
 pub fn bundled_scale_stage(
     prefix: &str,
     models: &[&str],
     per_model: usize,
     seed: u64,
     ref_budget: Duration,
+    cfg: FCfg,
+    pattern_weight: u32,
+    stats: &mut Stats,
+) -> Option<Failure> {
+    bundled_scale_stage_with(prefix, models, per_model, seed, ref_budget, cfg, pattern_weight, false, stats)
+}
+
+/// `force_weak`: every generated formula becomes the left argument of a weak until (C13).
+#[allow(clippy::too_many_arguments)]
+pub fn bundled_scale_stage_with(
+    prefix: &str,
+    models: &[&str],
+    per_model: usize,
+    seed: u64,
+    ref_budget: Duration,
+    cfg: FCfg,
+    pattern_weight: u32,
+    force_weak: bool,
     stats: &mut Stats,
 ) -> Option<Failure> {
     let started = Instant::now();
@@ -464,63 +625,95 @@ pub fn bundled_scale_stage(
     let collected: std::sync::Mutex<Vec<CaseReport>> = std::sync::Mutex::new(vec![]);
     let discards: std::sync::Mutex<std::collections::BTreeMap<String, u64>> = Default::default();
     let per_model_s: std::sync::Mutex<std::collections::BTreeMap<String, f64>> = Default::default();
+    // phase 1: the cases of every model (cheap); phase 2: all cases, interleaved, on 16 workers
+    let mut per_model_cases: Vec<Vec<ScaleCase>> = vec![];
+    for (m, path) in models.iter().enumerate() {
+        let Ok(bn) = BooleanNetwork::try_from_file(format!("{}/{}", repo_dir(), path).as_str()) else {
+            harness_error(&format!("bundled model {path} not loadable"));
+        };
+        let hybrid = SCALE_HYBRID_OK.contains(path);
+        let ew_ok = bn.num_vars() <= 15
+            && biodivine_lib_param_bn::symbolic_async_graph::SymbolicContext::new(&bn).map(|c| c.num_parameter_variables() <= 30).unwrap_or(false);
+        let raws = crate::bundled::sample_stream(
+            &(gen::raw_f_weighted(4, 10, pattern_weight), prop::collection::vec(crate::bundled::big_set(), gen::LABELS.len())),
+            mix(seed, 7000 + m as u64),
+            per_model,
+        );
+        // one-step formulae first (the self-loops on steady states show there), then the stream
+        let names: Vec<String> = bn.variables().map(|v| bn.get_variable_name(v).clone()).collect();
+        let pick = |i: u64| F::Prop(names[(mix(seed, 7100 + m as u64 + i) % names.len() as u64) as usize].clone());
+        let un = |op, a: F| F::Un(op, Box::new(a));
+        let bin = |op, a: F, b: F| F::Bin(op, Box::new(a), Box::new(b));
+        let formulae = vec![
+            un(UnOp::EX, F::Const(true)),
+            un(UnOp::AX, F::Const(false)),
+            un(UnOp::EX, pick(0)),
+            un(UnOp::AX, pick(1)),
+            un(UnOp::AX, bin(BinOp::Or, pick(2), un(UnOp::Not, pick(3)))),
+            un(UnOp::EX, un(UnOp::AX, pick(4))),
+        ];
+        let no_sets: Vec<BigSet> = vec![];
+        let mut formulae: Vec<(F, &Vec<BigSet>)> = formulae.into_iter().map(|f| (f, &no_sets)).collect();
+        formulae.extend(raws.iter().enumerate().map(|(i, (raw, sets))| {
+            let f = scale_formula(raw, &bn, cfg, usize::from(hybrid), true);
+            let f = if force_weak {
+                // (EW is evaluated by a classical iteration: only on the models of up to 15 variables and 30 parameter bits, with a proposition on the left)
+                if i % 4 == 0 && ew_ok { bin(BinOp::EW, pick(10 + i as u64), f) } else { bin(BinOp::AW, f, pick(10 + i as u64)) }
+            } else {
+                f
+            };
+            (f, sets)
+        }));
+        per_model_cases.push(
+            formulae
+                .into_iter()
+                .map(|(f, sets)| ScaleCase {
+                    scale: true,
+                    aeon: None,
+                    model: Some(path.to_string()),
+                    k: f.quant_depth() as u16,
+                    formula: f.canon(),
+                    fast: true,
+                    context: context_for(&f, sets),
+                })
+                .collect(),
+        );
+    }
+    let longest = per_model_cases.iter().map(|c| c.len()).max().unwrap_or(0);
+    let mut cases: Vec<&ScaleCase> = vec![];
+    for i in 0..longest {
+        for list in &per_model_cases {
+            if let Some(c) = list.get(i) {
+                cases.push(c);
+            }
+        }
+    }
     let next = std::sync::atomic::AtomicUsize::new(0);
     std::thread::scope(|scope| {
-        for _ in 0..16.min(models.len()) {
+        for _ in 0..16 {
             scope.spawn(|| loop {
-                let m = next.fetch_add(1, std::sync::atomic::Ordering::SeqCst);
-                if m >= models.len() {
+                let i = next.fetch_add(1, std::sync::atomic::Ordering::SeqCst);
+                if i >= cases.len() || failure.lock().unwrap().is_some() {
                     return;
                 }
-                let path = models[m];
-                let Ok(bn) = BooleanNetwork::try_from_file(format!("{}/{}", repo_dir(), path).as_str()) else {
-                    harness_error(&format!("bundled model {path} not loadable"));
-                };
-                let hybrid = SCALE_HYBRID_OK.contains(&path);
-                let t_model = Instant::now();
-                let raws = crate::bundled::sample_stream(&gen::raw_f_weighted(4, 10, 1), mix(seed, 7000 + m as u64), per_model);
-                // one-step formulae first (the self-loops on steady states show there), then the stream
-                let names: Vec<String> = bn.variables().map(|v| bn.get_variable_name(v).clone()).collect();
-                let pick = |i: u64| F::Prop(names[(mix(seed, 7100 + m as u64 + i) % names.len() as u64) as usize].clone());
-                let un = |op, a: F| F::Un(op, Box::new(a));
-                let bin = |op, a: F, b: F| F::Bin(op, Box::new(a), Box::new(b));
-                let mut formulae = vec![
-                    un(UnOp::EX, F::Const(true)),
-                    un(UnOp::AX, F::Const(false)),
-                    un(UnOp::EX, pick(0)),
-                    un(UnOp::AX, pick(1)),
-                    un(UnOp::AX, bin(BinOp::Or, pick(2), un(UnOp::Not, pick(3)))),
-                    un(UnOp::EX, un(UnOp::AX, pick(4))),
-                ];
-                formulae.extend(raws.iter().map(|raw| crate::bundled::bundled_formula(raw, &bn, hybrid)));
-                for f in formulae {
-                    if failure.lock().unwrap().is_some() {
+                let case = cases[i];
+                let path = case.model.as_deref().unwrap_or("");
+                let t_case = Instant::now();
+                match guard(|| check_scale(prefix, case, ref_budget)) {
+                    Ok(Verdict::Fail(fl)) => {
+                        let fl = shrink_scale(prefix, fl, ref_budget);
+                        let mut slot = failure.lock().unwrap();
+                        if slot.is_none() {
+                            *slot = Some(fl);
+                        }
                         return;
                     }
-                    let case = ScaleCase {
-                        scale: true,
-                        aeon: None,
-                        model: Some(path.to_string()),
-                        k: f.quant_depth() as u16,
-                        formula: f.canon(),
-                        fast: true,
-                    };
-                    match guard(|| check_scale(prefix, &case, ref_budget)) {
-                        Ok(Verdict::Fail(fl)) => {
-                            let fl = shrink_scale(prefix, fl, ref_budget);
-                            let mut slot = failure.lock().unwrap();
-                            if slot.is_none() {
-                                *slot = Some(fl);
-                            }
-                            return;
-                        }
-                        Ok(Verdict::Pass(rep)) => collected.lock().unwrap().push(rep),
-                        Ok(Verdict::Discard(r)) => *discards.lock().unwrap().entry(r.to_string()).or_insert(0) += 1,
-                        Err(p) => harness_error(&format!("panic in the harness on bundled model {path}: {p}")),
-                    }
+                    Ok(Verdict::Pass(rep)) => collected.lock().unwrap().push(rep),
+                    Ok(Verdict::Discard(r)) => *discards.lock().unwrap().entry(r.to_string()).or_insert(0) += 1,
+                    Err(p) => harness_error(&format!("panic in the harness on bundled model {path}: {p}")),
                 }
                 let short = path.rsplit('/').take(2).collect::<Vec<_>>().into_iter().rev().collect::<Vec<_>>().join("/");
-                per_model_s.lock().unwrap().insert(short, (t_model.elapsed().as_secs_f64() * 10.0).round() / 10.0);
+                *per_model_s.lock().unwrap().entry(short).or_insert(0.0) += t_case.elapsed().as_secs_f64();
             });
         }
     });
@@ -532,7 +725,7 @@ pub fn bundled_scale_stage(
     }
     stats.stages.insert(
         "bundled-models-vs-reference-symbolic-evaluator".into(),
-        json!({"models": models.len(), "formulae_per_model": per_model + 6, "cases": n, "nontrivial": nontrivial, "skipped": discards.into_inner().unwrap(), "seconds_per_model": per_model_s.into_inner().unwrap(), "wall_s": (started.elapsed().as_secs_f64() * 10.0).round() / 10.0}),
+        json!({"models": models.len(), "formulae_per_model": per_model + 6, "cases": n, "nontrivial": nontrivial, "skipped": discards.into_inner().unwrap(), "cpu_seconds_per_model": per_model_s.into_inner().unwrap().into_iter().map(|(k, v)| (k, (v * 10.0).round() / 10.0)).collect::<std::collections::BTreeMap<_, _>>(), "wall_s": (started.elapsed().as_secs_f64() * 10.0).round() / 10.0}),
     );
     failure.into_inner().unwrap()
 }
